@@ -3,8 +3,12 @@
 
 package workceptor
 
+import "os"
+
 // Verification hooks (build tag "verif"). With the tag off these are empty and inlined away.
 
 func verifPoint(_ string, _ string) {}
 
 func verifStatusWrite(_ string, _ string, _ bool, _ *StatusFileData, _ *StatusFileData) {}
+
+func verifPointIfShorter(_ string, _ string, _ *os.File, _ int64) {}
